@@ -386,8 +386,19 @@ def parser_pipeline(prop, tier, fam, whys, sweep=0, cfgname=None, need=('"res":"
     if not behs or not toks:
         raise ToolError("MC_Parser printed no behaviours")
     nsim = 0
-    simcfg = "MC_Parser_%s_sim.cfg" % fam
-    if cfgname is None and os.path.exists(os.path.join(verif.SPEC, "mc", simcfg)):
+    simcfg = None
+    if cfgname is None and fam != "c11t":
+        # derived from the configuration just checked (same family, same token table): longer histories
+        import re as _re
+        text = open(os.path.join(verif.SPEC, "mc", cfg)).read()
+        text = _re.sub(r"MaxCfg = \d+", "MaxCfg = 6", text)
+        text = _re.sub(r"MaxParse = \d+", "MaxParse = 4", text)
+        text = text.replace("Reconfigure = FALSE", "Reconfigure = TRUE")
+        text = "\n".join(l for l in text.splitlines() if "Inv_ParsePure" not in l and not l.startswith("PROPERTIES")) + "\n"
+        os.makedirs(os.path.join(verif.WORK, "tlc"), exist_ok=True)
+        simcfg = os.path.join(verif.WORK, "tlc", cfg.replace(".cfg", "_sim_%d.cfg" % os.getpid()))
+        open(simcfg, "w").write(text)
+    if simcfg:
         # longer histories of the same family (up to 6 configuration calls and 4 parses, reconfiguration
         # between parses): random behaviours drawn by TLC in simulation mode, invariants checked on each
         sres = verif.run_tlc("MC_Parser.tla", simcfg, workers=2, timeout=1800, depth=10,
